@@ -231,6 +231,9 @@ def run(ctx):
     from . import c13, c15
     borrow(ctx, "C17", c13.rule_index, ctx.py)
     borrow(ctx, "C17", c15.rule_radix_py, ctx.py)
+    # shared clause: a trajectory read back from a file is the trajectory that was written (C12.TRAJ), data layout included
+    from . import c12
+    c12.rule_traj(ctx, ctx.py, "C17.TRAJ")
     from .. import lints
     lints.run(ctx, "C17", ctx.py, ["rdoutput"], truth_floor=8)
     ctx.assume("returned values are not decided; the data layout written by the engine is C09.LAYOUT-OUT")
